@@ -99,5 +99,17 @@ def normalize (nn k : Nat) (h : Heap Int) (res rsz rsl a asz asl : Nat) : Heap I
     let h := (st.1.touch a nn).writeLimb res r.1
     forLimbs asz rsz (fun i => limb0 (Coeffs.zero i64Ops nn) (res + i * rsl)) h
 
+/-- `fft64_vec_znx_big_normalize_base2k`: a `VEC_ZNX_BIG` (fft64) is an int64 limb vector with stride
+    `nn`; the call is forwarded with `a_sl = nn`. -/
+def bigNormalize (nn k : Nat) (h : Heap Int) (res rsz rsl a asz : Nat) : Heap Int :=
+  normalize nn k h res rsz rsl a asz nn
+
+/-- `fft64_vec_znx_big_range_normalize_base2k`: limbs `begin, begin+step, … < end` of the big vector:
+    `a_st = a + nn*begin`, `a_size = (end + step - 1 - begin) / step`, `a_sl = nn*step`.
+    Faithful for `step ≥ 1` (C divides by `a_step`) and `begin ≤ end + step - 1` (otherwise the
+    `uint64_t` subtraction wraps in C and `a_size` is huge, whereas `Nat` subtraction gives 0). -/
+def bigRangeNormalize (nn k : Nat) (h : Heap Int) (res rsz rsl a abegin aend astep : Nat) : Heap Int :=
+  normalize nn k h res rsz rsl (a + nn * abegin) ((aend + astep - 1 - abegin) / astep) (nn * astep)
+
 end VecZnx
 end Spq
